@@ -77,6 +77,9 @@ class Ctx:
         self._out.flush()
 
     def flush_stats(self):
+        if self._L is not None and getattr(self._L, 'numprobe_count', 0):
+            self.counters['number_values_probed'] = self.counters.get('number_values_probed', 0) + self._L.numprobe_count
+            self._L.numprobe_count = 0
         if self.counters or self.sets or self.maxes or self.samples:
             self.emit(dict(t='stat', counters=self.counters, sets={k: sorted(v) for k, v in self.sets.items()},
                            maxes=self.maxes, samples=self.samples))
